@@ -662,10 +662,11 @@ void mon_inbound(const Run& run, const Ix&, Verdicts& v, vu::Result& res) {
             bool stale = false;
             // (the older exchange x used the same id, a session was lost between the two first transmissions, and x's message
             // came out of async_receive only after this message had been sent: x's waiter answered this exchange's PUBREL)
-            if (m.qos == 2 && !m.pub_bpkts.empty() && m.pub_bpkts[0] >= 0)
+            auto first_tx = [&](const OutMsg& q) { for (int b : q.pub_bpkts) if (b >= 0) return b; return -1; };   // (-1: offered to a dead connection)
+            if (m.qos == 2 && first_tx(m) >= 0)
                 for (auto& x : out) {
-                    if (x.id == m.id || x.qos != 2 || x.pid != m.pid || !count[x.id] || x.pub_bpkts.empty() || x.pub_bpkts[0] < 0) continue;
-                    uint64_t sx = h.bpkts[x.pub_bpkts[0]].seq, sm = h.bpkts[m.pub_bpkts[0]].seq;
+                    if (x.id == m.id || x.qos != 2 || x.pid != m.pid || !count[x.id] || first_tx(x) < 0) continue;
+                    uint64_t sx = h.bpkts[first_tx(x)].seq, sm = h.bpkts[first_tx(m)].seq;
                     if (sx >= sm || first_delivery[x.id] <= sm) continue;
                     bool lost_between = x.st == OutMsg::abandoned;
                     for (auto& c : h.conns) if (c.connack_sent && c.connack_rc == 0 && !c.session_present && c.seq_begin > sx && c.seq_begin < sm) lost_between = true;
